@@ -176,6 +176,10 @@ func c04do(tl *taskLogger, c *c04call) {
 		tl.l.Log(c.lvl, msg, fields...)
 	case feCheck:
 		if ce := tl.l.Check(c.lvl, msg); ce != nil {
+			if c.seq%3 == 2 {
+				// with an after-write hook that returns (an audit hook, say)
+				ce = ce.After(ce.Entry, c06quiet{})
+			}
 			ce.Write(fields...)
 		}
 	case feSugarW:
